@@ -20,9 +20,23 @@ BSZ_THOROUGH = sorted(set(BSZ_QUICK + list(range(64, 81)) + [100, 256, 511, 512,
 
 
 def text_case(rng, B):
-    kind = rng.choice(["aligned", "aligned", "aligned", "size-exact", "long-first"])
+    kind = rng.choice(["aligned", "aligned", "aligned", "size-exact", "long-first", "long-nth"])
     n = rng.choice([2, 3, 5, 9, 20, 40]) if B <= 8192 else rng.choice([3, 5, 9])
-    pre, msgs = cases.aligned_log(rng, B, n, first_inside=(kind != "long-first"), long_lines=(B <= 8192), preamble=(rng.random() < 0.15))
+    if kind == "long-nth":
+        # two or three short messages, then a message whose first line runs past the end of block zero (for every block size
+        # from 8096 to about its end): the admission heuristic has to count that unfinished line (round-6 change C12f)
+        n = max(n, 5)
+        pre, msgs = cases.aligned_log(rng, 64, n, first_inside=True, long_lines=False, preamble=False)
+        j = rng.choice([2, 2, 3])
+        head = sum(len(m.data) for m in msgs[:j])
+        reach = max(B, 8096) + rng.choice([1, 100, 5000]) if rng.random() < 0.5 else 65536 + rng.choice([1, 4000])
+        m = msgs[j]
+        nl = m.data.find(b"\n")
+        nl = nl if nl != -1 else len(m.data)
+        padn = max(0, reach - head - nl)
+        m.data = m.data[:nl] + gen.filler(rng, padn, "ascii") + m.data[nl:]
+    else:
+        pre, msgs = cases.aligned_log(rng, B, n, first_inside=(kind != "long-first"), long_lines=(B <= 8192), preamble=(rng.random() < 0.15))
     tn = rng.random() < 0.75
     data = pre + gen.log_bytes(msgs, tn)
     if kind == "size-exact" and B <= 65537:
